@@ -16,7 +16,9 @@ from commonroad.common.writer.file_writer_interface import OverwriteExistingFile
 from commonroad.geometry.shape import Rectangle
 from commonroad.planning.planning_problem import PlanningProblemSet
 from commonroad.scenario.lanelet import Lanelet, LaneletNetwork
+from commonroad.prediction.prediction import TrajectoryPrediction
 from commonroad.scenario.obstacle import DynamicObstacle, ObstacleType, StaticObstacle
+from commonroad.scenario.trajectory import Trajectory
 from commonroad.scenario.scenario import Environment, GeoTransformation, Location, Scenario, ScenarioID, Tag, TimeOfDay, Underground, Weather
 from commonroad.scenario.traffic_light import TrafficLight, TrafficLightCycle, TrafficLightCycleElement, TrafficLightDirection, TrafficLightState
 from commonroad.scenario.traffic_sign import SupportedTrafficSignCountry, TrafficSign, TrafficSignElement, TrafficSignIDCountries
@@ -46,8 +48,14 @@ def base_scenario(F, country="DEU", tags=None, env=None):
     return F.new(Scenario, 0.1, F.new(ScenarioID, False, country, "Enum", 1, 1, "T", 1), "author", set(tags) if tags is not None else {Tag.URBAN}, "affiliation", "source", loc)
 
 
-def build_group(F, group, pb):
-    keep = (lambda enum, pbe: [m for m in enum if in_proto(pbe)(m)]) if pb else (lambda enum, pbe: list(enum))
+def build_group(F, group, pb, member_filter=None):
+    """member_filter(enum class, role) -> members to use (default: all; protobuf: those the .proto defines)"""
+    if member_filter is not None:
+        keep = lambda enum, pbe, role=None: member_filter(enum, role)
+    elif pb:
+        keep = lambda enum, pbe, role=None: [m for m in enum if in_proto(pbe)(m)]
+    else:
+        keep = lambda enum, pbe, role=None: list(enum)
     if group.startswith("tags and environment"):
         k = int(group.split("#")[1])
         tod, wea, und = keep(TimeOfDay, location_pb2.TimeOfDayEnum.TimeOfDay), keep(Weather, location_pb2.WeatherEnum.Weather), keep(Underground, location_pb2.UndergroundEnum.Underground)
@@ -69,16 +77,21 @@ def build_group(F, group, pb):
             F.method(sc, "add_objects", F.new(TrafficLight, 100 + k, np.array([1.0 + k, 2.0]), cyc, direction=d, active=True), {1})
     elif group == "obstacle types":
         obs = []
-        for k, t in enumerate(keep(ObstacleType, obstacle_pb2.ObstacleTypeEnum.ObstacleType)):
+        for k, t in enumerate(keep(ObstacleType, obstacle_pb2.ObstacleTypeEnum.ObstacleType, "static")):
             obs.append(F.new(StaticObstacle, 100 + k, t, F.new(Rectangle, 4.0, 2.0), init_state(F, k)))
-            obs.append(F.new(DynamicObstacle, 200 + k, t, F.new(Rectangle, 4.0, 2.0), init_state(F, k)))
+        for k, t in enumerate(keep(ObstacleType, obstacle_pb2.ObstacleTypeEnum.ObstacleType, "dynamic")):
+            shape = F.new(Rectangle, 4.0, 2.0)
+            traj = F.new(Trajectory, 1, [F.new(st.KSState, time_step=1, position=np.array([2.0 + k, 2.0]), orientation=0.25, velocity=3.0, steering_angle=0.0)])
+            obs.append(F.new(DynamicObstacle, 200 + k, t, shape, init_state(F, k), F.new(TrajectoryPrediction, traj, shape)))
         F.method(sc, "add_objects", obs)
     elif group.startswith("traffic signs of "):
         c = SupportedTrafficSignCountry[group.split(" of ")[1]]
         sc = base_scenario(F, country=c.value)
         enum = TrafficSignIDCountries[c.value]
         members = list(enum)
-        if pb:
+        if member_filter is not None:
+            members = member_filter(enum, None)
+        elif pb:
             pbe = getattr(getattr(traffic_sign_pb2, enum.__name__ + "Enum"), enum.__name__)
             members = [m for m in members if in_proto(pbe)(m)]
         F.method(sc, "add_objects", lane(F, 1, 0.0, lanelet_type={LaneletType.URBAN}, traffic_signs={50, 51}))
